@@ -38,10 +38,13 @@ CASES = {"quick": 96, "thorough": 2400}
 BUDGET_S = {"quick": 45, "thorough": 700}
 MIN_EVALS = {"quick": 800, "thorough": 20000}
 FLOORS = {"replay_strict": 800, "replay_discard": 800, "full_recipe": 200, "limited_recipe": 200,
-          "e2e_rpc_paired": 60, "null_pruned_adjustment": 40, "ghost_in_missing": 40, "search_result_recipe": 40}
+          "e2e_rpc_paired": 60, "limited_recipe_ghost_filled": 30, "null_pruned_adjustment": 40, "ghost_in_missing": 40, "search_result_recipe": 40}
 EXHAUSTIVE = {"quick": False, "thorough": False}
 ASSUMPTIONS = [
-    "client and server see the same graph (no ghost filled between building the cache and the replay)",
+    "client and server see the same graph; the one exception explored is 'limited-ghost-filled': depth-limited recipes "
+    "(the default client path) are also replayed on a server where the client's negative-cached ghosts have been filled in "
+    "- they keep ghosts as stop keys, so the walk must not change. Whole-cache recipes drop ghosts from the stop list by "
+    "design and are not replayed there",
     "client caches hold the true parents of the keys they contain; missing keys are true ghosts or null:",
     "tip keys of depth-limited recipes are keys the client has not cached (CachingParentsProvider never asks for cached "
     "keys); cached tips are generated too but only counted",
@@ -327,7 +330,7 @@ def run_limited(pm, missing, tips, depth, fn=None):
     return recipe, walked
 
 
-def synthetic(ctx, env, tpm, ghosts):
+def synthetic(ctx, env, tpm, ghosts, env2=None):
     from breezy.bzr import vf_search
 
     rng = ctx.rng
@@ -364,6 +367,11 @@ def synthetic(ctx, env, tpm, ghosts):
                 continue
             ctx.count("limited_recipe")
             judge(ctx, env, "limited", pm, missing, recipe, walked, linfo)
+            if env2 is not None and (missing - {NULL}):
+                # the ghosts the client negative-cached have since been filled in on the server (another actor pushed
+                # them): a depth-limited recipe keeps them as stop keys, so the server must still walk exactly `walked`
+                ctx.count("limited_recipe_ghost_filled")
+                judge(ctx, env2, "limited-ghost-filled", pm, missing, recipe, walked, linfo)
 
 
 # ----------------------------------------------------------------- SearchResult recipes of real searches
@@ -715,7 +723,19 @@ def case(ctx):
     ctx.hist("graph:nodes:%02d" % (len(tpm) // 5 * 5))
     ctx.hist("graph:ghosts:%d" % len(ghosts))
     ctx.distinct("graph_shape", jb(tpm))
-    synthetic(ctx, env, tpm, ghosts)
+    env2 = None
+    if ghosts and rng.random() < 0.6:
+        # same graph with every ghost filled in (each gets an ancestor of its own the client has never heard of)
+        filled = []
+        for g in ghosts:
+            filled.append((b"anc-of-" + g, []))
+            filled.append((g, [b"anc-of-" + g]))
+        try:
+            env2 = build_repo({"nodes": filled + list(dag["nodes"]), "ghosts": []})
+        except Exception as e:
+            ctx.hist("ghost-filled-repo:construction-failed:%s" % type(e).__name__)
+            env2 = None
+    synthetic(ctx, env, tpm, ghosts, env2)
     searcher_recipes(ctx, env, tpm, ghosts)
     e2e_session(ctx, env, tpm, ghosts)
     if ctx.index % 3 == 0:
